@@ -207,6 +207,22 @@ def static_obligations(tier):
                      "src": "no unbounded repeat has a body alternative that is itself an unbounded repeat (up to nullable "
                             "neighbours): matching cannot split one run over iterations in exponentially many ways",
                      "detail": ("%s in %r" % (hz[0][0], p[:300])) if hz else p[:120]})
+        # the wider syntactic class -- an unbounded repeat whose body holds an inner unbounded repeat anywhere, e.g.
+        # (?:\{%.*?%\}|\s)+ where the lazy dot can run over the next iteration's delimiters -- is not decided by the shape
+        # alone: probed empirically (bounded: pumped inputs of 12 / 16 / 20 repetitions, three match APIs, 2 s budget)
+        import re as _re
+        p2 = _re.sub(r"\\[pP]\{[^}]*\}", r"\\w", p)
+        fl = flags & (_re.I | _re.M | _re.S | _re.X | _re.A)
+        try:
+            if relang.repeated_bodies_with_inner_repeat(p2, fl):
+                w = relang.pumped_timing(p2, fl)
+                recs.append({"oid": "regex/%s:%s/pumped_repeat_matches_in_time" % (mod.replace("flowmark.", ""), name),
+                             "status": "refuted" if w else "discharged",
+                             "src": "(bounded probe) matching a pumped body of a repeat that holds an inner repeat does not blow up",
+                             "detail": repr(w) if w else "no super-linear growth up to 20 repetitions"})
+        except Exception as e:
+            recs.append({"oid": "regex/%s:%s/pumped_repeat_matches_in_time" % (mod.replace("flowmark.", ""), name), "status": "unknown",
+                         "src": p[:200], "detail": "probe failed: %r" % e})
     return recs
 
 
@@ -222,6 +238,25 @@ def replay(rec):
             continue
         p2 = re.sub(r"\\[pP]\{[^}]*\}", r"\\w", p)
         signal.signal(signal.SIGALRM, _alarm)
+        if rec["oid"].endswith("/pumped_repeat_matches_in_time"):
+            w = relang.pumped_timing(p2, flags & (re.I | re.M | re.S | re.X | re.A))
+            if not w:
+                return {"reproduced": False}
+            for text in (w["pump"] * 34 + " and some text\n", "x " + w["pump"] * 34 + " and some text\n", w["pump"] * 34 + "\n\n- a\n"):
+                for o in (dict(width=88), dict(width=88, semantic=True)):
+                    signal.alarm(8)
+                    try:
+                        P.fmt(text, **o)
+                        done = True
+                    except Watchdog:
+                        done = False
+                    finally:
+                        signal.alarm(0)
+                    if not done:
+                        return {"reproduced": True, "input": {"text": text, "options": o},
+                                "got": "reformat_text did not return within 8 s on %d characters; pattern alone (%s): %s s for 12 / 16 / 20 repetitions"
+                                       % (len(text), w["api"], w["times"]), "expected": "terminates, time growing gently"}
+            return {"reproduced": False}
         for fam in relang.attack_strings(p2, flags & (re.I | re.M | re.S | re.X | re.A), ks=(14, 18, 22, 40)):
             ts = []
             for s in fam[:3]:
